@@ -964,7 +964,13 @@ def _run_simu(case):
 
         formK = BiLinearForm(lambda u, w: S(u).ddot(Sym_Grad(w)))
         formM = BiLinearForm(lambda u, w: rho * u.dot(w)) if algo == "hyperbolic" else None
-        wf = Simulations.WeakForms(mesh, Models.WeakForms(fld, formK, computeM=formM, thickness=thickness))
+        formCd = None
+        if algo == "hyperbolic":
+            # Rayleigh damping C = coefK K + coefM M (documented), with two DIFFERENT coefficients
+            cM, cK = 0.13, 0.07
+            ref.Set_Rayleigh_Damping_Coefs(coefM=cM, coefK=cK)
+            formCd = BiLinearForm(lambda u, w: cK * S(u).ddot(Sym_Grad(w)) + cM * rho * u.dot(w))
+        wf = Simulations.WeakForms(mesh, Models.WeakForms(fld, formK, computeC=formCd, computeM=formM, thickness=thickness))
         unk_ref = unk_wf = ["x", "y", "z"][:d]
         ncomp = d
 
@@ -991,11 +997,11 @@ def _run_simu(case):
     ndof = g.nPe * ncomp
     ntrans += ndof * ndof * (1 + (algo != "static"))
     bad = False
-    compared = {"static": ("K",), "parabolic": ("K", "C"), "hyperbolic": ("K", "M")}[algo]  # the forms the weak-form model defines
+    compared = {"static": ("K",), "parabolic": ("K", "C"), "hyperbolic": ("K", "C", "M")}[algo]  # the forms the weak-form model defines
     for which in compared:
         A, B = np.asarray(mats["weak"][which], dtype=float), np.asarray(mats["ref"][which], dtype=float)
-        if which == "K" and skipped:
-            continue  # two different quadratures: nothing is promised
+        if (which == "K" or (which == "C" and algo == "hyperbolic")) and skipped:
+            continue  # two different quadratures (the Rayleigh C contains K): nothing is promised
         sc = max(float(np.max(np.abs(B))), 1e-300) if B.size else 1.0
         err = relerr(A, B, sc)
         if err > TOL:
